@@ -75,7 +75,20 @@ func (u uAppender) AppendText(b []byte) ([]byte, error) {
 	if u.ID < 0 {
 		return append(b, "junk"...), errors.New("user error")
 	}
-	return append(b, userTexts[u.ID%len(userTexts)]...), nil
+	text := userTexts[u.ID%len(userTexts)]
+	switch u.ID % 9 { // what comes back need not be the slice that went in
+	case 5:
+		return append([]byte(nil), text...), nil // a fresh slice holding only the text
+	case 6:
+		return nil, nil
+	case 7:
+		return b[:0], nil
+	case 8:
+		if len(b) > 0 {
+			return b[:len(b)-1], nil
+		}
+	}
+	return append(b, text...), nil
 }
 
 type uMarshalerTo struct{ ID int }
@@ -99,7 +112,25 @@ func (u uMarshalerTo) MarshalJSONTo(e *jsontext.Encoder) error {
 		}
 		return nil
 	}
-	switch u.ID % 12 {
+	switch u.ID % 16 {
+	case 12: // leaves at the depth it came in at - but in another container of the same kind
+		e.WriteToken(jsontext.Int(1))
+		if e.WriteToken(jsontext.EndArray) != nil {
+			e.WriteToken(jsontext.EndObject)
+			e.WriteToken(jsontext.BeginObject)
+			e.WriteToken(jsontext.String("a"))
+			return e.WriteToken(jsontext.Int(2))
+		}
+		e.WriteToken(jsontext.BeginArray)
+		return e.WriteToken(jsontext.Int(2))
+	case 13: // the same through one raw value and tokens
+		e.WriteValue(jsontext.Value(`"v"`))
+		e.WriteToken(jsontext.EndObject)
+		e.WriteToken(jsontext.BeginObject)
+		e.WriteToken(jsontext.String("k"))
+		return e.WriteToken(jsontext.Null)
+	case 14, 15:
+		return e.WriteToken(jsontext.String("plain"))
 	case 0:
 		return e.WriteToken(jsontext.Int(1))
 	case 1: // nothing
@@ -243,6 +274,7 @@ type arshalCase struct {
 	Proj  [][]any    `json:"proj"`
 	Omit  bool       `json:"omit"`
 	Note  string     `json:"note"` // first error text, for the reader only
+	Swap  bool       `json:"swap"` // the value holds user code that swaps its caller's container (known finding K7)
 }
 
 func (c *arshalCase) norm() {
@@ -385,6 +417,7 @@ func c02Exec(c *arshalCase) {
 	c.Type = truncate(t.String(), 300)
 	v := genGoValue(r, &valCfg{invalidUTF8: true, nonFinite: true, nils: true, weirdZones: true}, t, 0)
 	fillCatalogIDs(r, v, 0)
+	c.Swap = holdsSwapper(v, 0)
 	opts := append(c.Opts.options(r), jsonv2.ExperimentalSupportFormatTag(true))
 	if r.IntN(4) == 0 { // caller-supplied functions with arbitrary output
 		id := r.IntN(len(userBytes))
@@ -1463,4 +1496,40 @@ func semErrExec(c *arshalCase) {
 		c.Note = truncate(err.Error(), 200)
 	}
 	c.Tree = map[string]any{"off": off, "kind": kind, "eoff": eoff, "eptr": eptr}
+}
+
+// holdsSwapper: some uMarshalerTo in the value closes its caller's container and opens another
+func holdsSwapper(v reflect.Value, depth int) bool {
+	if depth > 14 || !v.IsValid() {
+		return false
+	}
+	if v.Type() == reflect.TypeOf(uMarshalerTo{}) {
+		id := int(v.Field(0).Int())
+		return id >= 0 && id < 100 && (id%16 == 12 || id%16 == 13)
+	}
+	switch v.Kind() {
+	case reflect.Struct:
+		for i := 0; i < v.NumField(); i++ {
+			if holdsSwapper(v.Field(i), depth+1) {
+				return true
+			}
+		}
+	case reflect.Slice, reflect.Array:
+		for i := 0; i < v.Len(); i++ {
+			if holdsSwapper(v.Index(i), depth+1) {
+				return true
+			}
+		}
+	case reflect.Pointer, reflect.Interface:
+		if !v.IsNil() {
+			return holdsSwapper(v.Elem(), depth+1)
+		}
+	case reflect.Map:
+		for it := v.MapRange(); it.Next(); {
+			if holdsSwapper(it.Key(), depth+1) || holdsSwapper(it.Value(), depth+1) {
+				return true
+			}
+		}
+	}
+	return false
 }
